@@ -289,20 +289,23 @@ func instrumentFile(fset *token.FileSet, p *pkgInfo, f *ast.File, name, src, mod
 			// is), a label in front of the statement still belongs to a `for`, `continue` runs
 			// the post statement, and entries deleted during the iteration are skipped as Go does.
 			var sb strings.Builder
-			fmt.Fprintf(&sb, "for %s, %s := 0, simhook.Range(%s, %q); %s < len(%s.Keys); %s++ { simhook.Tick();", iv, sv, text(x.X), site, iv, sv, iv)
 			if x.Tok == token.DEFINE {
 				kn := keyText
 				if kn == "" || kn == "_" {
 					kn = kv
 				}
-				fmt.Fprintf(&sb, " %s := %s.Keys[%s];", kn, sv, iv)
 				if valText != "" && valText != "_" {
-					fmt.Fprintf(&sb, " %s, %s := %s.M[%s]; if !%s { continue };", valText, okv, sv, kn, okv)
+					// key and value variables are declared once, in the loop header
+					fmt.Fprintf(&sb, "for %s, %s, %s, %s := simhook.RangeKV(%s, %q); %s < len(%s.Keys); %s++ { simhook.Tick();", iv, sv, kn, valText, text(x.X), site, iv, sv, iv)
+					fmt.Fprintf(&sb, " %s = %s.Keys[%s]; var %s bool; %s, %s = %s.M[%s]; if !%s { continue };", kn, sv, iv, okv, valText, okv, sv, kn, okv)
+					fmt.Fprintf(&sb, " _, _ = %s, %s;", kn, valText)
 				} else {
-					fmt.Fprintf(&sb, " if _, %s := %s.M[%s]; !%s { continue };", okv, sv, kn, okv)
+					fmt.Fprintf(&sb, "for %s, %s, %s := simhook.RangeK(%s, %q); %s < len(%s.Keys); %s++ { simhook.Tick();", iv, sv, kn, text(x.X), site, iv, sv, iv)
+					fmt.Fprintf(&sb, " %s = %s.Keys[%s]; if _, %s := %s.M[%s]; !%s { continue };", kn, sv, iv, okv, sv, kn, okv)
+					fmt.Fprintf(&sb, " _ = %s;", kn)
 				}
-				fmt.Fprintf(&sb, " _ = %s;", kn)
 			} else {
+				fmt.Fprintf(&sb, "for %s, %s := 0, simhook.Range(%s, %q); %s < len(%s.Keys); %s++ { simhook.Tick();", iv, sv, text(x.X), site, iv, sv, iv)
 				fmt.Fprintf(&sb, " %s := %s.Keys[%s]; if _, %s := %s.M[%s]; !%s { continue };", kv, sv, iv, okv, sv, kv, okv)
 				if keyText != "" && keyText != "_" {
 					fmt.Fprintf(&sb, " %s = %s;", keyText, kv)
